@@ -6,6 +6,9 @@ def T(shards=8, procs=2, timeout=600, **kw):
     return d
 
 CHECKS = {
+    "C01": {"pkg": "c01", "level": "exploration",
+            "quick": T(8, 2, 600), "thorough": T(14, 1, 2400),
+            "assumptions": ["both endpoints are this library (agreement, not conformance: see C10)", "virtual clock via testing/synctest; goroutine interleavings are whatever the Go scheduler produces"]},
     "C12": {"pkg": "c12", "level": "exploration",
             "quick": T(8, 2, 300), "thorough": T(14, 1, 1500),
             "assumptions": ["reference reassembler written from RFC 6347 4.2.3; fragments form a partition (overlapping re-partitions are out of the quantifier)"]},
